@@ -61,6 +61,13 @@ CLAIMED["C20"] = ("DESIGN.md §4 C20",
     "thread owning the listener before returning Ok; the listener is never leaked; dropping the stopped pool joins nothing immortal; tokio: the select's "
     "cancelled() branch leaves the loop with Ok(()). Promptness and in-flight responses are not decided.")
 
+CLAIMED["C19"] = ("DESIGN.md §4 C19",
+    "R-DOM (content dominated by the not-listed edge, wrappers summarised from their own MIR), R-TABLE (route-type dispatch), R-FLOW taint by case analysis over Address construction sites (which fields hold the socket peer), R-DOM on the accept loops of the default, tls and tokio builds",
+    "Decides: in the file, directory, proxy and redirect handlers every content-producing call is dominated by the not-listed edge of the blacklist membership "
+    "test; the dispatcher reaches content only through those handlers; block mode: verify_connection denies under (mode == Block && list.contains(socket peer)), "
+    "is installed, and every accept loop dispatches only under its true edge; in every Address construction case the tested fields include the socket peer and "
+    "the forwarded-for origin. What the kernel reports as peer address is trusted.")
+
 NOT_YET = {}
 
 NOT_APPLICABLE = {
